@@ -9,6 +9,7 @@ From TL Require Import Lib.Base Lib.GenTypes Gen.MagicGen Model.MagicNum Model.M
 Definition flags_off (lg : mlang) (q : mquirks) : Prop :=
   match lg with
   | MPy => q_py_upper_neg_flagged q = false /\ q_py_upper_ann_flagged q = false /\ q_py_upper_tuple_flagged q = false
+           /\ q_py_enumerate_kw_flagged q = false /\ q_py_upper_binop_flagged q = false
   | MTs => q_ts_test_marker_anywhere q = false /\ q_ts_single_letter_const q = false
   | MRs => True
   end.
@@ -17,7 +18,7 @@ Theorem report_exact lg q cfg f :
   flags_off lg q -> file_good lg f = true -> report lg q cfg f = spec_report lg cfg f.
 Proof.
   destruct lg; cbn [flags_off report].
-  - intros [H2 [H3 H4]]. apply py_report_exact; assumption.
+  - intros [H2 [H3 [H4 [H5 H6]]]]. apply py_report_exact; assumption.
   - intros [H3 H4]. apply ts_report_exact; assumption.
   - intros _. apply rs_report_exact.
 Qed.
@@ -117,7 +118,7 @@ Section Delta.
   Lemma py_site_delta t s : py_site_report q c2 t s = filter (keep a) (py_site_report q c1 t s).
   Proof.
     rewrite !py_site_report_eq. destruct (negb (val_is (p_val s) py_numeric_types (excl (q_py_bool_is_number q) py_numeric_excluded))); [reflexivity|].
-    assert (E : py_exempt q c2 s = py_exempt q c1 s) by (unfold py_exempt, py_small_in; rewrite Hmax; reflexivity).
+    assert (E : py_exempt q c2 s = py_exempt q c1 s) by (unfold py_exempt, py_small_in, py_small_kw; rewrite Hmax; reflexivity).
     rewrite Hmem, E.
     assert (N : rval_names (rval_of (p_val s)) a = num_eqb (val_num (p_val s)) a) by (destruct (p_val s); reflexivity).
     destruct (nmem (val_num (p_val s)) (allowed c1)); [rewrite orb_true_r; reflexivity|]. rewrite orb_false_r.
@@ -185,7 +186,7 @@ Proof.
   intros H1 H2. destruct lg; cbn [report].
   - unfold py_report. destruct (py_is_definition_file q (f_name f) (to_py f)); [reflexivity|].
     apply flat_map_ext. intros st. apply flat_map_ext. intros s. rewrite !py_site_report_eq.
-    assert (E : py_exempt q c2 s = py_exempt q c1 s) by (unfold py_exempt, py_small_in; rewrite H2; reflexivity).
+    assert (E : py_exempt q c2 s = py_exempt q c1 s) by (unfold py_exempt, py_small_in, py_small_kw; rewrite H2; reflexivity).
     rewrite H1, E. reflexivity.
   - unfold ts_report. apply flat_map_ext. intros s. unfold ts_site_report.
     destruct (negb (String.eqb (t_type s) ts_number_type)); [reflexivity|].
@@ -210,14 +211,14 @@ Theorem ts_extract_total pq bq l raw :
   lit_ok MTs l = true -> lit_raw l = Some raw -> ts_extract pq bq (lit_chars l) = Some raw.
 Proof.
   intros Hok Hr.
-  exact (ts_lit_extract (Build_mquirks false false false false pq bq false false false) l raw Hok Hr).
+  exact (ts_lit_extract (Build_mquirks false false false false pq bq false false false false false) l raw Hok Hr).
 Qed.
 
 Theorem rs_extract_total tbl l raw :
   lit_ok MRs l = true -> lit_raw l = Some raw -> rs_extract tbl (rs_node_type l) (lit_chars l) = Some raw.
 Proof.
   intros Hok Hr.
-  exact (rs_lit_extract (Build_mquirks false false false false false false false false tbl) l raw Hok Hr).
+  exact (rs_lit_extract (Build_mquirks false false false false false false false false tbl false false) l raw Hok Hr).
 Qed.
 
 (* what is reported is reported once per occurrence, on its line, naming its value — for the model with the flags off *)
